@@ -162,12 +162,24 @@ class D(Driver):
         # the clean-up may cascade (a dissolved group's opacity product rounds to 0, its shape is pruned,
         # its gradient becomes unused ...): every further pass that still changes the document must
         # start from one that shows the same flaw, and a fixpoint must be reached
+        def norm(text):
+            # order of <defs> children is the other known class: compare modulo that order
+            try:
+                import xml.etree.ElementTree as ET
+
+                r = ET.fromstring(text)
+                kids = sorted(list(r[0]), key=lambda x: ET.tostring(x))
+                r[0][:] = kids
+                return ET.tostring(r)
+            except Exception:
+                return text
+
         cur = out2
         for _ in range(5):
             st, nxt = conv.convert(cur, ndigits=nd)
             if st != "ok":
                 return None
-            if nxt == cur:
+            if norm(nxt) == norm(cur):
                 return "cleanup-before-late-pruning"
             try:
                 flawed = [e for e in PGm.validate(cur, nd, True) if e[0] == "group_children"] or xmlcanon.references(cur)["orphans"]
